@@ -150,7 +150,7 @@ def run(ctx):
     ctx.rule("C18-R7", "status plumbing: the code the client judges is the parsed :status, the refusals carry the documented codes")
     table = {
         r"^wtransport_proto::ids::StatusCode::into_inner$": (r"^return self\.0$", []),
-        r"^wtransport_proto::ids::StatusCode::try_from_u32$": (r"^return <T as TryInto<U>>::try_into\(value\)$", []),
+        r"^wtransport_proto::ids::StatusCode::try_from_u32$": (r"^return (<T as TryInto<U>>::try_into|<StatusCode as TryFrom<u32>>::try_from)\(value\)$", []),
         r"^wtransport_proto::session::SessionResponse::ok$": (r"^return SessionResponse::with_status_code\(StatusCode::OK=200\)$", []),
         r"^wtransport_proto::session::SessionResponse::forbidden$": (r"^return SessionResponse::with_status_code\(StatusCode::FORBIDDEN=403\)$", []),
         r"^wtransport_proto::session::SessionResponse::not_found$": (r"^return SessionResponse::with_status_code\(StatusCode::NOT_FOUND=404\)$", []),
